@@ -338,7 +338,7 @@ def graph_case(case):
             f2.unpacksizes = list(range(len(self.coders)))
             built.append({"n": len(self.coders), "pairs": [[b.incoder, b.outcoder] for b in self.bindpairs],
                           "order": [next(k for k, c in enumerate(self.coders) if c is x) for x in log[k0]],
-                          "main": f2.get_unpack_size()})
+                          "main": f2.get_unpack_size(), "packed": list(self.packed_indices)})
         return d
 
     ai.SevenZipDecompressor, ai.Folder.get_decompressor = spy_dec, spy_get
@@ -356,8 +356,35 @@ def graph_case(case):
     tr = []
     if built:
         b = built[0]
-        tr = [{"e": "coders", "n": b["n"]}] + [{"e": "pair", "i": i, "o": o} for i, o in b["pairs"]] + [{"e": "built", "order": b["order"], "main": b["main"]}]
+        tr = [{"e": "coders", "n": b["n"]}] + [{"e": "pair", "i": i, "o": o} for i, o in b["pairs"]] + [{"e": "built", "order": b["order"], "main": b["main"], "packed": b["packed"]}]
     return {"e": "graph", "obs": obs, "trace": tr, "parsed_as_written": (not built) or built[0]["pairs"] == pairs}
+
+
+def graph_units(graphs):
+    """every pair list TLC can write down for <= 4 coders - ill-formed ones included (repeated ends, cycles, self-loops) - handed to the
+    real Folder object: get_decompressor() must come back (C05: the walk cannot loop) with the pipeline Folder.tla's walk yields"""
+    import_py7zr()
+    import py7zr.archiveinfo as ai
+    real = ai.SevenZipDecompressor
+    seen = []
+    ai.SevenZipDecompressor = lambda coders, *a, **kw: seen.append(list(coders)) or object()
+    out = []
+    try:
+        for g in graphs:
+            # the folder record as bytes (n simple coders with a one-byte id, the pairs as one-byte NUMBERs), parsed by Folder._read itself
+            rec = bytes([g["n"]]) + bytes([0x01, 0x21]) * g["n"] + bytes(x for pr in g["pairs"] for x in pr)
+            f = ai.Folder.retrieve(io.BytesIO(rec))
+            if [[b.incoder, b.outcoder] for b in f.bindpairs] != [list(pr) for pr in g["pairs"]] or len(f.coders) != g["n"]:
+                raise MachineryError("Folder._read did not parse the record it was given")
+            f.unpacksizes = list(range(g["n"]))
+            del seen[:]
+            f.get_decompressor(0)
+            order = [next(k for k, c in enumerate(f.coders) if c is x) for x in seen[0]]
+            out.append([{"e": "coders", "n": g["n"]}] + [{"e": "pair", "i": i, "o": o} for i, o in g["pairs"]] +
+                       [{"e": "built", "order": order, "main": f.get_unpack_size(), "packed": list(f.packed_indices)}])
+    finally:
+        ai.SevenZipDecompressor = real
+    return out
 
 
 def classify_graph(tr, l):
@@ -421,6 +448,21 @@ def run_graphs(tier, rep, ev, R):
         if v["trace"]:
             traces.append(v["trace"])
             origins.append(origin)
+    # ---- all pair lists, ill-formed ones included, on the real Folder object
+    ra = tlc.run("GenFolder", "GenFolderAll.cfg", workers=1, timeout=900)
+    ev.add_tlc(ra, "GenFolder(all pair lists, coders<=4)")
+    allg = [json.loads(b) if isinstance(b, str) else b for b in ra.prints.get("ALL", [])]
+    if len(allg) < 4000:
+        raise MachineryError(f"GenFolder emitted {len(allg)} pair lists, 4182 expected")
+    uo = sandbox.run_one(graph_units, allg, timeout=120)
+    if uo.status != "ok":
+        rep.violation(f"folder-graph:walk-{uo.status}", f"the reader's walk over every pair list of <= 4 coders: {uo.status} {str(uo.value)[:200]} {uo.detail[-300:]}", {"graphs": "all"})
+    else:
+        for g in allg:
+            ev.case(("pairs", g["n"], json.dumps(g["pairs"])), nontrivial=not g["wf"])
+        traces += uo.value
+        origins += [{"unit": g} for g in allg]
+    ev.cov["pair_lists_on_the_real_folder_object"] = len(allg)
     ev.cov["folder_graphs_from_tlc"] = len(graphs)
     ev.cov["folder_graph_cases"] = len(cases)
     validate("C06", traces, rep, ev, spec="TraceFolder", cfg="TraceFolder.cfg", classify_fn=classify_graph, origins=origins, batch=3000)
